@@ -15,11 +15,12 @@
 (***************************************************************************)
 EXTENDS Circuit, TraceBase, FiniteSets
 
-VARIABLES l, cur, masked, others, sent, cnt, deltas, ndelta, owns, nown, viol, nruns
-vars == << l, cur, masked, others, sent, cnt, deltas, ndelta, owns, nown, viol, nruns >>
+VARIABLES l, cur, masked, others, sent, cnt, deltas, ndelta, owns, nown, viol, nruns, disc, hist
+vars == << l, cur, masked, others, sent, cnt, deltas, ndelta, owns, nown, viol, nruns, disc, hist >>
 
 Init == /\ l = 1 /\ cur = [run |-> "none"] /\ masked = << >> /\ others = << >> /\ sent = << >> /\ cnt = << >>
         /\ deltas = {} /\ ndelta = 0 /\ owns = {} /\ nown = 0 /\ viol = << >> /\ nruns = 0
+        /\ disc = << >> /\ hist = << >>
 e == Rec[l]
 H == cur.tag.h
 
@@ -65,6 +66,18 @@ Win == 64
 Reappears(a, b) == Len(a) >= Win /\ Len(b) >= Win /\
                    \E st \in 1..(Len(b) - Win + 1) : \/ SubSeq(b, st, st + Win - 1) = SubSeq(a, 1, Win)
                                                       \/ \A k \in 1..Win : b[st + k - 1] # a[k]
+\* Distinct wires carry independent masks (groups tagged `dupw`: one circuit with more than 1000 input wires, so that the
+\* random shares come from several batches; the same observed party in every run).  From the transcript the party's share of
+\* EVERY input wire is known: derived as above for its own wires, disclosed in "wire shares" for the others'.  The history of
+\* a wire over the runs of the group is a bit string; after N >= 40 runs two wires with the same history (chance 2^-N per
+\* pair) carry the same share in every execution -- e.g. a batch of shares that repeats part of the previous batch.
+IsDup == "dupw" \in DOMAIN cur.tag
+InWires == AllInputRegs(cur.circ)
+ShareOf(w, ov) == IF w \in Wires THEN ov[w] ELSE disc[w]
+Repeated(h) == { pr \in (DOMAIN h) \X (DOMAIN h) : pr[1] < pr[2] /\ h[pr[1]] = h[pr[2]] }
+DupGroups == { g \in DOMAIN hist : LET h == hist[g] IN Len(h[CHOOSE w \in DOMAIN h : TRUE]) >= 40
+                                      /\ Cardinality({ h[w] : w \in DOMAIN h }) < Cardinality(DOMAIN h) }
+
 RunBad ==
   IF e.ev = "end" /\ (\E w \in Wires : masked[w] = 2) THEN "no masked input broadcast seen for an input wire"
   ELSE IF e.ev = "end" /\ cur.tag.reuse /\ (LET ov == OwnVec
@@ -81,7 +94,12 @@ RunBad ==
 
 Unbalanced == { k \in DOMAIN cnt : cnt[k].n >= 100 /\ (2 * cnt[k].ones - cnt[k].n) * (2 * cnt[k].ones - cnt[k].n) > 25 * cnt[k].n }
 FinalBad ==
-  IF Unbalanced # {} THEN
+  IF DupGroups # {} THEN
+    LET g == CHOOSE x \in DupGroups : TRUE
+        pr == CHOOSE x \in Repeated(hist[g]) : TRUE IN
+    "two wires carry the same mask share of the party in every execution: group " \o g \o " wires " \o ToString(pr[1]) \o ", "
+    \o ToString(pr[2]) \o " (" \o ToString(Len(hist[g][pr[1]])) \o " runs)"
+  ELSE IF Unbalanced # {} THEN
     LET k == CHOOSE x \in Unbalanced : TRUE IN
     IF k[3] >= 100
     THEN "own mask shares of two input wires are correlated: group " \o k[1] \o " wires " \o ToString(k[2]) \o ", " \o ToString(k[3] - 100)
@@ -106,6 +124,15 @@ Next ==
              ELSE IF e.ev = "msg" /\ e.ph = "wire shares" /\ e.from = H
                   THEN sent \o SelectSeq([k \in 1..Len(e.v) |-> IF e.v[k].some THEN e.v[k].v[1] ELSE 2], LAMBDA b : b # 2)
              ELSE sent
+  /\ disc' = IF e.ev = "cfg" THEN [w \in AllInputRegs(e.circ) |-> 2]
+             ELSE IF e.ev = "msg" /\ e.ph = "wire shares" /\ e.from = H
+                  THEN [w \in DOMAIN disc |-> IF e.v[w + 1].some THEN e.v[w + 1].v[1] ELSE disc[w]] ELSE disc
+  /\ hist' = IF e.ev = "end" /\ IsDup /\ (\A w \in Wires : masked[w] # 2) /\ (\A w \in InWires \ Wires : disc[w] # 2)
+             THEN LET ov == OwnVec
+                      g == cur.tag.grp
+                      old == IF g \in DOMAIN hist THEN hist[g] ELSE [w \in InWires |-> << >>] IN
+                  (g :> [w \in InWires |-> Append(old[w], ShareOf(w, ov))]) @@ hist
+             ELSE hist
   /\ cnt' = IF e.ev = "end" /\ ~cur.tag.canary /\ (\A w \in Wires : masked[w] # 2) THEN BumpPairs(BumpAll(cnt, Wires), PairsOf(Wires), OwnVec) ELSE cnt
   /\ deltas' = IF e.ev = "probe" /\ e.name = "delta" THEN deltas \cup {e.vals[1]} ELSE deltas
   /\ ndelta' = IF e.ev = "probe" /\ e.name = "delta" THEN ndelta + 1 ELSE ndelta
